@@ -231,7 +231,7 @@ class PathEval(object):
     def __init__(self, program, func, env, is_effect=None, pure=PURE, depth=0, fail_value=None, memo=None, maxstates=None, through_effects=False, dirty_paths=False,
                  call_values=None, markers=None, observe=None, split=None, starts=None, track=None, exact_counters=False, observe_callees=False, callee_effect=None, observe_exit=None):
         self.observe_exit = observe_exit   # callback(kind, node or None, env) at every function exit reached ("return" / "end")
-        self.callee_effect = callee_effect   # dirty-path mode: effect predicate used INSIDE evaluated callees (their parameters are not ours); default: is_effect
+        self.callee_effect = callee_effect   # effect predicate used INSIDE evaluated callees (their parameters are not ours); default: is_effect
         self.observe_callees = observe_callees   # also report elements reached inside evaluated callees (helpers)
         self.exact_counters = exact_counters   # compute ++/--/+= on known values instead of widening them (bounded explorations only)
         self.track = track                 # optional set of lvalue keys whose constants are kept (others are treated as unknown: fewer states, more paths)
@@ -305,7 +305,7 @@ class PathEval(object):
             return self.memo[key]
         self.memo[key] = None      # recursion guard
         try:
-            sub = PathEval(self.P, g, genv, (self.callee_effect or self.custom_effect) if self.dirty_paths else self.custom_effect, self.pure, self.depth + 1, None, self.memo,
+            sub = PathEval(self.P, g, genv, (self.callee_effect or self.custom_effect), self.pure, self.depth + 1, None, self.memo,
                            maxstates=3000, through_effects=True, dirty_paths=self.dirty_paths, callee_effect=self.callee_effect,
                            observe=self.observe if self.observe_callees else None, call_values=self.call_values)
             out = sub.run()
